@@ -104,6 +104,11 @@ theorem inv4_mainAtomic {s : S} (h1 : Inv1 s) (h4 : Inv4 s) : Inv4 (mainAtomic s
 theorem evlog_finishPass (s : S) (v : BitVec 32) : (finishPass s v).evlog = s.evlog := rfl
 theorem evlog_returned (s : S) (r : Ret) : (returned s r).evlog = s.evlog := by
   unfold returned; split <;> rfl
+theorem evlog_bodyStep (s : S) : (bodyStep s).evlog = s.evlog := by
+  unfold bodyStep; split
+  · rw [evlog_returned]
+  · rfl
+  · rfl
 theorem evlog_bodyOf (s : S) (c : Fid) : (bodyOf s c).evlog = s.evlog := by
   unfold bodyOf
   split
@@ -111,6 +116,7 @@ theorem evlog_bodyOf (s : S) (c : Fid) : (bodyOf s c).evlog = s.evlog := by
   · split <;> rw [evlog_returned]
   · split <;> rw [evlog_returned] <;> rfl
   · rw [evlog_returned]
+  · rw [evlog_bodyStep]
 theorem evlog_dispatch (s : S) : (dispatch s).evlog = s.evlog := by
   unfold dispatch; split
   · unfold body; rw [evlog_bodyOf]; rfl
@@ -131,6 +137,8 @@ theorem evlog_afterDrain (s : S) (c : Cont) : (afterDrain s c).evlog = s.evlog :
       · rw [evlog_afterUpdate]
       · exact evlog_afterUpdate s
   | pass2 c => simp only [afterDrain]; rw [evlog_afterUpdate]
+  | brun g => simp only [afterDrain]; rw [evlog_bodyStep]; rfl
+  | bkill g => simp only [afterDrain]; rw [evlog_bodyStep]; rfl
 
 theorem inv4_mainPlain {s : S} (h1 : Inv1 s) (h4 : Inv4 s) : Inv4 (mainPlain s) := by
   have hm := h1.mainEq
@@ -197,6 +205,7 @@ theorem reach_inv4 {s : S} (hr : Reach s) : Inv4 s := by
   | nops k _ ih => exact inv4_same ih rfl rfl
   | newItem _ ih => exact inv4_same ih rfl rfl
   | noYields _ ih => exact inv4_same ih rfl rfl
+  | setBody b r _ ih => exact inv4_same ih rfl rfl
   | observe o _ _ ih => exact inv4_same ih rfl rfl
 
 end Librfn.Isr.L
